@@ -7,9 +7,10 @@
   lowerings produce the same MIR (or the same rejection).
 -/
 import DDV.Gen.Pipeline
+import DDV.Gen.Lemmas.FrontCases
 
 namespace DDV.Props.C16
-open DDV.Gen
+open DDV.Gen DDV.Gen.FrontCases
 set_option linter.unusedVariables false
 set_option linter.unusedSimpArgs false
 
@@ -69,21 +70,28 @@ theorem field_agree (g : GlobalConfig) (f : AField) (h : CommonField f) : dslFie
   | none =>
     have hb : f.base = .bool := by
       cases hbb : f.base <;> simp_all
-    simp only [hb]
     cases hc : f.conv with
-    | none => simp [hc]
+    | none => cases hu : checkU32 f.start <;> simp [hb, hu, bind, Except.bind, pure, Except.pure]
     | some cv =>
       cases cv with
-      | ty p t => simp only [hc] at h2; simp [hc, h2]
-      | «enum» e t => simp only [hc] at h2; simp [hc, h2]
+      | ty p t => simp only [hc] at h2; cases hu : checkU32 f.start <;> simp [hb, hu, h2, bind, Except.bind, pure, Except.pure]
+      | «enum» e t => simp only [hc] at h2; cases hu : checkU32 f.start <;> simp [hb, hu, h2, bind, Except.bind, pure, Except.pure]
   | some e =>
-    simp only
     cases hc : f.conv with
-    | none => simp [hc]
+    | none => cases hu : checkU32 f.start <;> cases hv : checkU32 e <;> simp [hu, hv, bind, Except.bind, pure, Except.pure]
     | some cv =>
       cases cv with
-      | ty p t => simp only [hc] at h2; simp [hc, h2]
-      | «enum» e t => simp only [hc] at h2; simp [hc, h2]
+      | ty p t =>
+        simp only [hc] at h2
+        cases hu : checkU32 f.start <;> cases hv : checkU32 e <;> simp [hu, hv, h2, bind, Except.bind, pure, Except.pure]
+      | «enum» e' t =>
+        simp only [hc] at h2
+        cases hu : checkU32 f.start <;> cases hv : checkU32 e <;> simp [hu, hv, h2, bind, Except.bind, pure, Except.pure]
+
+/-- Under `CommonField` the DSL lowering of a field can only fail with `front_bad_value` (as the manifest one). -/
+theorem dslField_cases (g : GlobalConfig) (f : AField) (h : CommonField f) :
+    (∃ v, dslField g f = .ok v) ∨ dslField g f = .error bv := by
+  rw [field_agree g f h]; exact manField_cases g f
 
 theorem reset_agree (syn : Syntax) (r : Option ResetValue) (h : CommonReset syn r) : dslReset r = manReset syn r := by
   unfold dslReset manReset manUintOk
@@ -117,7 +125,13 @@ theorem override_agree (syn : Syntax) (target : String) (ov : AOverride) (h : Co
   unfold dslOverride manOverride
   obtain ⟨h1, h2, h3⟩ := h
   simp only [h1, List.isEmpty_nil, Bool.not_true, Bool.false_eq_true, if_false]
-  rcases h2 with hk | hk | hk <;> simp [hk, reset_agree syn ov.reset h3]
+  rcases h2 with hk | hk | hk
+  · simp [hk]
+  · simp only [hk, ← reset_agree syn ov.reset h3]
+    rcases optAddr_cases ov.address with a1 | a1 <;> rcases checkRepeat_cases ov.repeat_ with a2 | a2 <;>
+      rcases dslReset_cases ov.reset with a3 | a3 <;>
+      simp [a1, a2, a3, bind, Except.bind, pure, Except.pure]
+  · simp [hk]
 
 mutual
 theorem obj_agree (syn : Syntax) (g : GlobalConfig) : ∀ (o : AObj), CommonObj syn o → dslObj g o = manObj syn g o
@@ -128,14 +142,24 @@ theorem obj_agree (syn : Syntax) (g : GlobalConfig) : ∀ (o : AObj), CommonObj 
   | .register c access bo bito address size reset rep abo aao fields, h => by
     unfold dslObj manObj
     unfold CommonObj at h
-    rw [mapM_congr_mem _ _ fields (fun f hf => field_agree g f (h.2 f hf)), reset_agree syn reset h.1]
+    rw [← mapM_congr_mem _ _ fields (fun f hf => field_agree g f (h.2 f hf)), ← reset_agree syn reset h.1]
+    rcases checkAddr_cases address with a1 | a1 <;> rcases checkU32_cases size with a2 | a2 <;>
+      rcases dslReset_cases reset with a3 | a3 <;> rcases checkRepeat_cases rep with a4 | a4 <;>
+      rcases mapM_cases (dslField g) fields (fun f hf => dslField_cases g f (h.2 f hf)) with ⟨v, a5⟩ | a5 <;>
+      simp [a1, a2, a3, a4, a5, bind, Except.bind, pure, Except.pure]
   | .command c basic address bo bito si so rep abo aao fin fout, h => by
     unfold dslObj manObj
     unfold CommonObj at h
-    rw [mapM_congr_mem _ _ (fin.getD []) (fun f hf => field_agree g f (h.2.1 f hf)),
-        mapM_congr_mem _ _ (fout.getD []) (fun f hf => field_agree g f (h.2.2 f hf))]
+    rw [← mapM_congr_mem _ _ (fin.getD []) (fun f hf => field_agree g f (h.2.1 f hf)),
+        ← mapM_congr_mem _ _ (fout.getD []) (fun f hf => field_agree g f (h.2.2 f hf))]
     cases basic with
-    | false => simp
+    | false =>
+      simp only [Bool.false_eq_true, if_false]
+      rcases checkAddr_cases address with a1 | a1 <;> rcases checkU32_cases (si.getD 0) with a2 | a2 <;>
+        rcases checkU32_cases (so.getD 0) with a3 | a3 <;> rcases checkRepeat_cases rep with a4 | a4 <;>
+        rcases mapM_cases (dslField g) (fin.getD []) (fun f hf => dslField_cases g f (h.2.1 f hf)) with ⟨v, a5⟩ | a5 <;>
+        rcases mapM_cases (dslField g) (fout.getD []) (fun f hf => dslField_cases g f (h.2.2 f hf)) with ⟨w, a6⟩ | a6 <;>
+        simp [a1, a2, a3, a4, a5, a6, bind, Except.bind, pure, Except.pure]
     | true =>
       obtain ⟨rfl, rfl, rfl, rfl, rfl, rfl, rfl, rfl, rfl⟩ := h.1 rfl
       simp [checkU32, fitsU32, checkRepeat, bind, Except.bind, pure, Except.pure]
